@@ -12,6 +12,12 @@ MINORS = [(2, 6), (2, 7), (3, 0), (3, 1), (3, 2), (3, 3), (3, 4), (3, 5), (3, 6)
 BASE = ["2.7", "3", "3.6", "3.7", "3.8", "3.9", "3.10", "3.6.1", "3.7.0", "3.8.5", "3.9.10", "3.10.1", "4", "4.0",
         "3.10.0", "3.10.0", "3.11.0", "3.0", "3.0.0", "3.1", "3.10.10", "3.2.0"]
 def gen_range(rng):
+    if rng.random() < 0.12:
+        # two half-lines around one version (or two neighbouring ones), every inclusivity: the union that excludes a single version
+        v = rng.choice(BASE); w = v if rng.random() < 0.7 else rng.choice(BASE)
+        g = [rng.choice(["<", "<="]) + v, rng.choice([">", ">="]) + w]
+        rng.shuffle(g)
+        return " || ".join(g)
     groups = []
     for _ in range(rng.choice([1, 1, 1, 2])):
         cl = []
